@@ -432,7 +432,11 @@ func scenSigMut(rep *Report, tier string, seed int64) {
 				if k < len(ext) && len(ext[k]) > 0 {
 					bit := r.Intn(len(ext[k]) * 8)
 					ext[k][bit/8] ^= 1 << uint(bit%8)
-					add(fmt.Sprintf("flip:extid%d", k), cloneEntryWith(orig, ext, content))
+					kind := fmt.Sprintf("flip:extid%d", k)
+					if k == 2 && len(ext) == 3 && bit/8 == len(ext[2])-1 {
+						kind = "flip:sig-last-byte" // the byte the enumeration below flips bit by bit
+					}
+					add(kind, cloneEntryWith(orig, ext, content))
 				}
 			}
 		}
